@@ -1104,4 +1104,4 @@ func TestEnum(t *testing.T) {
 	})
 }
 
-func TestReplay(t *testing.T) { core.Replay(t, buildCheck, flipCheck) }
+func TestReplay(t *testing.T) { core.Replay(t, buildCheck, flipCheck, concurrentCheck) }
